@@ -231,18 +231,24 @@ def after_shard():
 
 
 def expected_attrs(node):
+    """what the documentation promises: the label; schedulers keep sharp angles while jobs have rounded corners;
+    forever items have a dashed border; critical ones a coloured and thicker border"""
     sid = node["obj"]._sched_id
-    want = {"label": "%s: %s" % (sid, node["label"]), "shape": "box",
-            "penwidth": "2" if node["crit"] else "0.5"}
-    st = []
-    if node["kind"] == "j":
-        st.append("rounded")
-    if node["forever"]:
-        st.append("dashed")
-    want["style"] = ",".join(st)
-    if node["crit"]:
-        want["color"] = "red"
-    return want
+    return {"label": "%s: %s" % (sid, node["label"]), "rounded": node["kind"] == "j", "dashed": bool(node["forever"]),
+            "coloured": bool(node["crit"])}
+
+
+def rendered(attrs):
+    style = set(x for x in attrs.get("style", "").split(",") if x)
+    return {"label": attrs.get("label"), "rounded": "rounded" in style, "dashed": "dashed" in style,
+            "coloured": "color" in attrs}
+
+
+def penwidths_ok(pairs):
+    """critical borders are thicker than non-critical ones (when both kinds occur in the export)"""
+    crit = [float(a.get("penwidth", 1)) for n, a in pairs if n["crit"]]
+    other = [float(a.get("penwidth", 1)) for n, a in pairs if not n["crit"]]
+    return not crit or not other or min(crit) > max(other)
 
 
 def check_structure(g, kids, allnodes, info):
@@ -266,14 +272,16 @@ def check_structure(g, kids, allnodes, info):
 
     def cluster_of(node):
         return None if node["parent"] is None else "cluster_%s" % node["parent"]["obj"]._sched_id
+    pairs = []
     for n in atoms:
         sub, attrs = seen[n["obj"]._sched_id]
+        pairs.append((n, attrs))
         if sub.name != (cluster_of(n) or g.name) or (cluster_of(n) is None) != (sub is g):
             fail("C20: node %s sits in %r, its scheduler's cluster is %r" % (n["obj"]._sched_id, sub.name,
                                                                             cluster_of(n)), info)
-        if attrs != expected_attrs(n):
-            fail("C20: attributes of node %s are %r, expected %r" % (n["obj"]._sched_id, attrs, expected_attrs(n)),
-                 info)
+        if rendered(attrs) != expected_attrs(n):
+            fail("C20: node %s is rendered as %r (attributes %r), documented: %r"
+                 % (n["obj"]._sched_id, rendered(attrs), attrs, expected_attrs(n)), info)
     # clusters: one per nested scheduler, nested as the schedulers are
     subs = list(g.all_subgraphs())
     names = [s.name for s in subs]
@@ -292,8 +300,17 @@ def check_structure(g, kids, allnodes, info):
             pass
         want = expected_attrs(n)
         got = {k: v for k, v in sub.attrs.items() if k != "compound"}
-        if got != want:
-            fail("C20: attributes of cluster %s are %r, expected %r" % (sub.name, got, want), info)
+        if rendered(got) != want:
+            fail("C20: cluster %s is rendered as %r (attributes %r), documented: %r"
+                 % (sub.name, rendered(got), got, want), info)
+        pairs.append((n, got))
+    try:
+        ok = penwidths_ok(pairs)
+    except ValueError:
+        ok = False
+    if not ok:
+        fail("C20: critical jobs do not have a thicker border than the others: %s"
+             % [(n["label"], a.get("penwidth")) for n, a in pairs], info)
     if g.attrs.get("compound") != "true":
         fail("C20: compound=true is missing: edges to clusters (lhead/ltail) would be ignored", info)
     # edges: exactly one per requirement, right endpoints
